@@ -330,6 +330,10 @@ func SfRtpDatagram(hdr string, n int, marker bool, pt int, seq int, ts uint32, s
 	case "extPast": // extension length past the end
 		h[0] |= 0x10
 		return cat(h, []byte{0xbe, 0xde, 0xff, 0xff}, payload)
+	case "ext4000", "ext8000", "extc000", "ext4001": // 4 * length is a multiple of 65536 (plus 4): wraps in 16 bits
+		h[0] |= 0x10
+		l := map[string]uint16{"ext4000": 0x4000, "ext8000": 0x8000, "extc000": 0xc000, "ext4001": 0x4001}[hdr]
+		return cat(h, []byte{0xbe, 0xde, byte(l >> 8), byte(l)}, payload)
 	case "extCut": // extension bit, 2 bytes follow
 		h[0] |= 0x10
 		return cat(h, []byte{0xbe, 0xde})
